@@ -52,6 +52,15 @@ class ArrayGO:
                 self._array_mutable = list(iterable)
 
     #---------------------------------------------------------------------------
+    def __setstate__(self, state: tp.Tuple[None, tp.Dict[str, tp.Any]]) -> None:
+        '''
+        Ensure that reanimated NP arrays are set not writeable.
+        '''
+        for key, value in state[1].items():
+            setattr(self, key, value)
+        if self._array is not None:
+            self._array.flags.writeable = False
+
     def __deepcopy__(self, memo: tp.Dict[int, tp.Any]) -> 'ArrayGO':
         if self._recache:
             self._update_array_cache()
